@@ -20,7 +20,9 @@ DRIVERS = ["driver_deribit"]
 RULE = ("random books (1-4 instruments, 0-12 levels a side, int and float sizes incl. emptied levels, prices on and off the 0.0005 grid, ETH and BTC "
         "steps; 30 % of the sides as rows in any order with price levels split over several rows; 30 % of the books with an instrument on a binary "
         "price grid whose book has an ask exactly on multiple x mark and a bid exactly on mark / multiple, traded with that multiple and amounts "
-        "reaching into the tie level) and sequences of 1-8 buys/sells inside one bar; buckets = (side, pricing mode market/limit-exact/limit-near/limit-edge/limit-usd "
+        "reaching into the tie level; 15 % of the instruments priced 0.5-1.2 so that neighbouring levels lie within the 0.1 % limit window, limit "
+        "amounts up to the sum of the window; half of the books handed over as the market's own data frame) and sequences of 1-8 buys/sells inside one "
+        "bar with read-only calls (estimate_cost, check_transaction, get_market_balance) in between; buckets = (side, pricing mode market/limit-exact/limit-near/limit-edge/limit-usd "
         "with or without mark cap, amount class, outcome class+cause, number of levels filled)")
 TRUSTED = ["float arithmetic of the order-book sizes is reproduced with Lean `Float` (IEEE binary64) in the driver; theorems treat book floats as reals "
            "(DCtx.ideal) and Decimal arithmetic as exact (NumCtx.exact)",
@@ -291,17 +293,33 @@ def oracle_equity(ctx, token, S, bal, rep):
 def run_sequence(ctx: Ctx, spec, reqs, oracle_only=False):
     """spec: instrs, now, token, wallet, cash, positions, ops.  Runs the real market, the oracle, queues model requests."""
     rig = L.Rig(spec["instrs"], now=spec["now"], token=spec["token"], wallet=Decimal(spec["wallet"]), cash=Decimal(spec["cash"]),
-                positions=spec["positions"])
+                positions=spec["positions"], via_frame=spec.get("via_frame", False))
     rep = {"spec": spec}
     orig = L.dump_state(rig)["book"]
+    frame0 = L.frame_cells(rig)
     tracker = {}
     for idx, (op, tag) in enumerate(spec["ops"]):
         S = L.dump_state(rig)
         n0 = len(rig.actions)
+        fr = L.frame_cells(rig)
         out, res = L.apply_op(rig, op)
         S2 = L.dump_state(rig)
         acts = [L.dump_action(a) for a in rig.actions[n0:]]
         srep = dict(rep, step=idx)
+        if op["type"] in ("estimate", "check", "balance"):
+            # helpers that only read: nothing is filled, so nothing the property observes may move -- not the visible book, and not the
+            # frame the book is refreshed from
+            ctx.case(f"probe:{op['type']}:{tag}:{out}")
+            for k in ("book", "cash", "positions", "wallet"):
+                if S2[k] != S[k]:
+                    ctx.violate(f"{op['type']}.{k}-changes-without-fill",
+                                f"{op['type']}({ {a: str(b) for a, b in op.items() if a != 'type'} }) [{out}] is not an order, yet the {k} changed", srep)
+            if acts:
+                ctx.violate(f"{op['type']}.action-logged", f"{op['type']} recorded an action", srep)
+            if L.frame_cells(rig) != fr:
+                ctx.violate(f"{op['type']}.data-frame-changes", f"{op['type']}({ {a: str(b) for a, b in op.items() if a != 'type'} }) [{out}] changed the order "
+                            f"book cells of the data frame the visible book is refreshed from", srep)
+            continue
         if op["type"] in ("buy", "sell"):
             oracle_trade(ctx, spec["token"], S, op, out, res, S2, acts, srep, tracker)
             nfill = len(res["fills"]) if out == "ok" else 0
@@ -316,6 +334,10 @@ def run_sequence(ctx: Ctx, spec, reqs, oracle_only=False):
             reqs.append((f"{op['type']}:{tag}", L.step_request(S, op, spec["token"]), out, res, S2, acts, srep))
         else:
             reqs.append((f"{op['type']}:{tag}", L.step_request(S, op, spec["token"]), out, res, S2, acts, srep))
+    # the frame the book is refreshed from at the next bar is what it was: fills live in the visible copy only
+    if frame0 is not None and L.frame_cells(rig) != frame0:
+        ctx.violate("bar.data-frame-changed", "the order-book cells of the market's data frame changed during the bar: the next refresh does not restore "
+                    "the displayed sizes", rep)
     # over the whole bar: what was taken from a level never exceeds what it showed when the bar began
     final = L.dump_state(rig)["book"]
     for (name, key, p), taken in tracker.items():
@@ -346,12 +368,25 @@ def gen_spec(rng):
                               "avgSell": str(Decimal(rng.randint(0, 900)) / 10000), "sellAmt": str(rng.randint(0, 5))})
             held[i["name"]] = a
     ops = []
+    via_frame = rng.random() < 0.5
     for _ in range(rng.randint(1, 8)):
+        if rng.random() < 0.25 and instrs:
+            # a read-only call in between: estimate_cost (needs the market's own frame), check_transaction, get_market_balance
+            t, ttag = L.gen_trade(rng, instrs, token, positions=held)
+            kind = rng.choice(("estimate", "check", "check", "balance") if via_frame else ("check", "check", "balance"))
+            probe = {"type": kind}
+            if kind != "balance":
+                probe.update({k: v for k, v in t.items() if k != "type"})
+                probe["side"] = t["type"]
+                if kind == "estimate":
+                    probe.pop("mult", None)
+                    probe.pop("priceUsd", None)
+            ops.append((probe, ttag.split(":")[0]))
         op, tag = L.gen_trade(rng, instrs, token, positions=held)
         ops.append((op, tag))
         if op["type"] == "buy" and isinstance(op["amount"], (int, Decimal)) and op["amount"] >= 1:
             held[op["name"]] = held.get(op["name"], Decimal(0)) + Decimal(op["amount"])   # optimistic: later sells aim at it
-    return {"instrs": instrs, "now": now, "token": token, "wallet": "5", "cash": str(cash), "positions": positions, "ops": ops}
+    return {"instrs": instrs, "now": now, "token": token, "wallet": "5", "cash": str(cash), "positions": positions, "ops": ops, "via_frame": via_frame}
 
 
 def directed_specs():
@@ -381,7 +416,17 @@ def directed_specs():
     tie_a = copy.deepcopy(base)                                     # 2 x 0.03125 = 0.0625 exactly: the second ask sits on the cap
     tie_a[0].update({"mark": 0.03125, "asks": [[0.05, 3], [0.0625, 5], [0.07, 9]], "bids": [[0.03, 3], [0.015625, 5], [0.01, 2]]})
     pos10 = [{"name": base[0]["name"], "expiry": 30000, "strike": 1650, "kind": "CALL", "amount": "10"}]
+    near = copy.deepcopy(base)                                      # two asks / bids within 0.1 % of one another
+    near[0].update({"mark": 0.8, "asks": [[0.8, 3], [0.8005, 10], [0.81, 4]], "bids": [[0.7995, 3], [0.799, 10], [0.78, 4]]})
+    one = copy.deepcopy(base)                                       # exactly one level a side
+    one[0].update({"asks": [[0.03, 145]], "bids": [[0.027, 70]]})
+    mkf = lambda instrs, cash, positions, ops: dict(mk(instrs, cash, positions, ops), via_frame=True)  # noqa: E731
     return [
+        mk(near, "100", pos10, [{"type": "buy", "name": n, "amount": 5, "priceTok": 0.8}, {"type": "sell", "name": n, "amount": 5, "priceTok": 0.7995},
+                                 {"type": "buy", "name": n, "amount": 3, "priceTok": 0.8005}]),
+        mkf(one, "100", pos10, [{"type": "estimate", "name": n, "amount": 5, "side": "buy"}, {"type": "estimate", "name": n, "amount": 5, "side": "sell"},
+                                 {"type": "check", "name": n, "amount": 5, "side": "buy"}, {"type": "buy", "name": n, "amount": 5},
+                                 {"type": "estimate", "name": n, "amount": 5, "side": "buy", "priceTok": 0.03}, {"type": "sell", "name": n, "amount": 5}]),
         mk(rough1, "100", [], [{"type": "buy", "name": n, "amount": 3}, {"type": "buy", "name": n, "amount": 8}]),
         mk(rough2, "100", [], [{"type": "buy", "name": n, "amount": 2, "priceTok": 0.05}, {"type": "buy", "name": n, "amount": 8},
                                {"type": "sell", "name": n, "amount": 6}, {"type": "sell", "name": n, "amount": 4}]),
